@@ -35,7 +35,7 @@ Qed.
 Lemma sinv_weffect s w s' : w < par c -> sinv s -> weffect c s w s' -> sinv s'.
 Proof.
   intros Hw [HS HD] He. split; [eapply safe_weffect; eauto|].
-  destruct He as [i a t rest Hsrc Hc Hb | Hsrc Hc | i Hsrc Hc Hb Hcl | ctl' Hcn
+  destruct He as [i a t rest Hsrc Hc Hb | Hsrc Hc | i Hsrc Hc Hb Hcl | ctl' Hcn Hdue Hsl Hsls
                  | eof a k0 v rest Hc Hs Hcl | eof k0 t r rest Hc Hb | dropped Hp Hnd Hnr Hnc Hwhy | eof a k0 v rest Hc Hs Hcl].
   - apply done_closed_frame with s; simpl; auto. intros w' Hlt.
     destruct (Nat.eq_dec w' w) as [->|Hne]; upd_simpl; auto. intros Hd. exfalso. eapply take_not_done; eauto.
